@@ -27,7 +27,9 @@ sys.path.insert(0, str(VERIF))
 
 CASES = {
     "C18": [dict(sut="tri", seed=0, ag="SIMPLE", no_xfail=True), dict(sut="floats", seed=0, ag="SIMPLE"), dict(sut="safefloats", seed=0, ag="SIMPLE"),
-            dict(sut="queue_", seed=86109, ag="SIMPLE", no_xfail=True, direction="FORWARD"), dict(sut="account", seed=0, ag="SIMPLE")],
+            dict(sut="queue_", seed=86109, ag="SIMPLE", no_xfail=True, direction="FORWARD"), dict(sut="account", seed=0, ag="SIMPLE"),
+            # stale assertion after statement minimisation (still present at 73cd0bc): `var_0.__exit__()` removed, `assert var_0.log == [...]` kept
+            dict(sut="printer", seed=53428, ag="MUTATION_ANALYSIS", direction="FORWARD", iters=3)],
     "C19": [dict(sut="lastcall", seed=0, ag="SIMPLE"), dict(sut="queue_", seed=0, ag="SIMPLE", no_xfail=True),
             dict(sut="lastcall", seed=0, ag="SIMPLE", post_process=False)],
     "C24": [dict(sut="queue_", seed=0, ag="SIMPLE", no_xfail=True), dict(sut="floats", seed=0, ag="SIMPLE"), dict(sut="tri", seed=0, ag="NONE"),
@@ -48,8 +50,9 @@ BREAKS = {
                                        "keeps all unverified assertions; reported as an anomaly, not a witness", ["~after-execution-timeouts:fails:AssertionError:attr-eq-int"]),
         "filter_execution_times_out,fix_filter": ("same environment + proposed fail-closed patch of the assertion filter: nothing fails", ["~!after-execution-timeouts:"]),
         "fix_needs_pytest": ("proposed patch: import pytest whenever the rendered functions reference it", ["!fails:NameError:pytest-not-imported"]),
-        "fix_ruv,fix_needs_pytest,fix_minimizer": ("all three proposed patches (remove_unused_variables, needs_pytest, assertion-aware minimiser)",
-                                                   ["!fails:NameError:pytest-not-imported", "!fails:AssertionError:var-eq-int"]),
+        "fix_ruv,fix_needs_pytest,fix_minimizer": ("all proposed patches (remove_unused_variables and needs_pytest are in the tree since 6ff8549; "
+                                                   "minimiser keeps statements that touch asserted objects)",
+                                                   ["!fails:NameError:pytest-not-imported", "!fails:AssertionError:var-eq-int", "!fails:AssertionError:attr-eq-collection"]),
     },
     "C19": {
         "export_drops_last_assertion": ("exporter forgets the last assertion of a test function", ["lost:export:"]),
